@@ -187,8 +187,8 @@ package rosmar
 //@   requires DocInv(r) && HlcInv(r)
 //@   requires IntOK(r)
 //@   use mutator err=err
-//@   ensures [C02:remove.necessary] err == nil ==> r.present && (ifCas == nil || *ifCas == r.cas)
-//@   ensures [C02:remove.rejected]  ifCas != nil && r.present && *ifCas != r.cas ==> err != nil && db == old(db) && (iscasmismatch(err) || isdberr(err) || isclosed(err))
+//@   ensures [C02,C03:remove.necessary] err == nil ==> r.present && (ifCas == nil || *ifCas == r.cas)
+//@   ensures [C02,C03:remove.rejected]  ifCas != nil && r.present && *ifCas != r.cas ==> err != nil && db == old(db) && (iscasmismatch(err) || isdberr(err) || isclosed(err))
 //@   ensures [C01,C05,C14:remove.tombstone] err == nil ==> r2.present && isnull(r2.value) && r2.tombstone == 1 && r2.exp == 0 && r2.isJSON == 0 && r2.cas == newCas && casOut == newCas
 //@   ensures [C01:remove.missing]   !r.present ==> err != nil
 //@   loop 1001 invariant [C05:remove.loop] forall k: Str :: it[k] == (if visited[k] && !issys(k) then NOX else it0[k])
@@ -237,8 +237,8 @@ package rosmar
 //@   requires IntOK(r)
 //@   requires opt >= 0 && opt < 32
 //@   use mutator err=err
-//@   ensures [C02:WriteCas.cas-necessary]  err == nil && !ins ==> r.present && cas == r.cas
-//@   ensures [C02:WriteCas.cas-rejected]   !ins && r.present && cas != r.cas ==> err != nil && db == old(db)
+//@   ensures [C02,C03:WriteCas.cas-necessary]  err == nil && !ins ==> r.present && cas == r.cas
+//@   ensures [C02,C03:WriteCas.cas-rejected]   !ins && r.present && cas != r.cas ==> err != nil && db == old(db)
 //@   ensures [C02:WriteCas.cas-class]      !ins && r.present && cas != r.cas && count("sql") >= 2 ==> iscasmismatch(err) || ismissing(err) || iskeyexists(err) || isdberr(err)
 //@   ensures [C02:WriteCas.cas-actual]     iscasmismatch(err) ==> err.Actual == r.cas && err.Expected == cas
 //@   ensures [C06:WriteCas.insert-only-if] err == nil && ins ==> !hasBody(r)
@@ -437,6 +437,10 @@ package rosmar
 //@   ensures [C16:StartDCPFeed.dump-eof]      (result == nil && args.Dump && bf ==> pushes()[2].isnil) && (result == nil && args.Dump && !bf ==> pushes()[0].isnil)
 //@   ensures [C08,C16:StartDCPFeed.spawned]   result == nil ==> count("spawn") == 1
 //@   ensures [C09:StartDCPFeed.nobackfill]    !bf ==> count("call:Collection.enqueueBackfillEvents") == 0
+//@   ensures [C08,C15,C16:StartDCPFeed.registers-live] result == nil && !args.Dump ==> count("mapupdate") == 1
+//@   ensures [C16:StartDCPFeed.dump-not-registered]    args.Dump || result != nil ==> count("mapupdate") == 0
+//@   ensures [C09,C15:StartDCPFeed.registers-after-backfill] result == nil && !args.Dump && bf ==> callpos("Collection.enqueueBackfillEvents") < tracepos("mapupdate") && pushpos(1) < tracepos("mapupdate")
+//@   ensures [C08,C16:StartDCPFeed.registers-before-run] result == nil && !args.Dump ==> tracepos("mapupdate") < tracepos("spawn")
 //@   ensures [C20:StartDCPFeed.unlocked]      any: nolocks()
 //@
 //@ fn (*Collection)._stopFeeds
@@ -621,8 +625,8 @@ package rosmar
 //@   ensures [C04,C10,C12:wwx.lastcas]    err == nil ==> bucketLastCas == newCas && collLast(c.id) == newCas
 //@   ensures [C17:wwx.rev]                err == nil ==> r2.rev == nextrev(r)
 //@   ensures [C08,C17:wwx.event]              err == nil ==> lenlist(posted) == 1 && posted[0] == eventOf(key, r2) && postsAfterCommit()
-//@   ensures [C02:wwx.cas-necessary]      err == nil && ifCas != nil ==> *ifCas == cur
-//@   ensures [C02:wwx.cas-rejected]       ifCas != nil && *ifCas != cur ==> err != nil && db == old(db)
+//@   ensures [C02,C03:wwx.cas-necessary]      err == nil && ifCas != nil ==> *ifCas == cur
+//@   ensures [C02,C03:wwx.cas-rejected]       ifCas != nil && *ifCas != cur ==> err != nil && db == old(db)
 //@   ensures [C02:wwx.cas-actual]         iscasmismatch(err) && count("call:event.expandXattrMacros") == 0 ==> err.Expected == *ifCas && err.Actual == cur
 //@   ensures [C06:wwx.insert-only-absent] err == nil && ifCas != nil && *ifCas == 0 ==> !r.present
 //@   ensures [C06:wwx.insertdoc-iff-nobody] opts.insertDoc && err == nil ==> !hasBody(r)
@@ -825,6 +829,7 @@ package rosmar
 // collection. The WHERE clause and the column expressions of the CTE are evaluated by the engine's SQL semantics over
 // an arbitrary row, so any textually different but equivalent spelling is accepted and any inequivalent one refuted.
 //@ fn (*Collection).prepareQuery
+//@   flag nodbinv=the-visible-set-is-stated-for-every-table-content
 //@   loop 1 invariant [C19:prepareQuery.args-loop] true
 //@   ensures [C19:prepareQuery.shape] cteOK(result0)
 //@   ensures [C19:prepareQuery.live-docs-of-this-collection] forall o: DocId :: cteWhere(result0, o) <==> (docAt(o).present && o.coll == c.id && !isnull(docAt(o).value))
@@ -857,6 +862,7 @@ package rosmar
 //@   ensures [C19:prerecorded.error]     old(iter.err) != nil ==> isnull(result)
 //@
 //@ fn (*Collection).Query
+//@   flag nodbinv=the-visible-set-is-stated-for-every-table-content
 //@   ensures [C19:Query.language]      language != "SQLite" ==> err != nil && count("sql") == 0
 //@   ensures [C19:Query.one-statement] count("sql") <= 1 && (err == nil ==> count("sql") == 1)
 //@   ensures [C19:Query.keyspace-shape] count("sql") == 1 ==> cteOK(stmtText(0))
